@@ -186,11 +186,11 @@ Proof.
 Qed.
 
 (* ---------- character classes ---------- *)
-Definition start_char (x : N) : bool :=
-  is_digit x || is_ident_start x || (x =? 40) || (x =? 123) || (x =? 45) || (x =? 33).
+Definition lstart_char (x : N) : bool :=
+  is_digit x || is_ident_start x || (x =? 40) || (x =? 123) || (x =? 34) || (x =? 46) || (x =? 36).
+Definition start_char (x : N) : bool := lstart_char x || (x =? 45) || (x =? 33).
 Definition starts (r : text) : Prop := match r with [] => False | x :: _ => start_char x = true end.
 (* the first character of an operand that is not a unary operator *)
-Definition lstart_char (x : N) : bool := is_digit x || is_ident_start x || (x =? 40) || (x =? 123).
 Definition lstarts (r : text) : Prop := match r with [] => False | x :: _ => lstart_char x = true end.
 
 Lemma check_ws_none c r : is_whitespace c = false -> check_whitespace (c :: r) = None.
@@ -278,6 +278,57 @@ Proof. intros Hr. exact (lex_word 116 [114; 117; 101] rest eq_refl eq_refl Hr). 
 Lemma lex_false rest : sep rest -> Lex kw_false rest TKeywordFalse.
 Proof. intros Hr. exact (lex_word 102 [97; 108; 115; 101] rest eq_refl eq_refl Hr). Qed.
 
+(* the `$` identifier, in front of anything that is not a hexadecimal digit *)
+Lemma lex_dollar rest : sep rest -> Lex [36] rest TIdentifier.
+Proof.
+  intros Hr. split; [reflexivity|split; [|reflexivity]]. cbn [app]. unfold decide_next_token.
+  change (check_whitespace (36 :: rest)) with (@None (tkind * N)).
+  change (check_comment (36 :: rest)) with (@None (tkind * N)). cbn [orelse]. unfold check_number.
+  change (is_number_start 36) with false. change (36 =? 36) with true. cbv iota.
+  assert (E : span_while is_hex_mid rest = (0, rest)).
+  { destruct rest as [|y rest]; [reflexivity|]. cbn [span_while sep] in *.
+    replace (is_hex_mid y) with false; [reflexivity|].
+    unfold is_hex_mid, is_ident_mid, is_ident_start, is_lower, is_upper, is_digit, in_range in *. lia. }
+  rewrite E. reflexivity.
+Qed.
+Lemma lex_nameok n rest : name_ok n = true -> sep rest -> Lex n rest TIdentifier.
+Proof.
+  unfold name_ok. intros H Hr. apply orb_prop in H. destruct H as [H | H].
+  - apply text_eqb_eq in H. subst n. apply lex_dollar, Hr.
+  - apply lex_name; assumption.
+Qed.
+(* a string token: whatever follows *)
+Lemma str_ok_shape raw : str_ok raw = true ->
+  exists body, raw = 34 :: body ++ [34] /\ forallb (fun c => negb (c =? 34)) body = true.
+Proof.
+  unfold str_ok. destruct raw as [|q r]; [discriminate|].
+  destruct (N.eq_dec q 34) as [-> | Hq].
+  2:{ destruct q as [|p]; [discriminate|]. do 6 (destruct p as [p|p|]; try discriminate). congruence. }
+  assert (G : forall r m rest, span_while (fun c => negb (c =? 34)) r = (m, rest) ->
+            exists body, r = body ++ rest /\ forallb (fun c => negb (c =? 34)) body = true).
+  { clear. induction r as [|c r IH]; intros m rest E; cbn [span_while] in E.
+    - inversion E. exists []. split; reflexivity.
+    - destruct (negb (c =? 34)) eqn:Ec.
+      + destruct (span_while (fun c => negb (c =? 34)) r) as [m' rest'] eqn:E'. inversion E; subst.
+        destruct (IH _ _ eq_refl) as (body & -> & Hb). exists (c :: body). split; [reflexivity|]. cbn [forallb]. rewrite Ec, Hb. reflexivity.
+      + inversion E; subst. exists []. split; reflexivity. }
+  destruct (span_while (fun c => negb (c =? 34)) r) as [m rest] eqn:E. intro H. apply text_eqb_eq in H. subst rest.
+  destruct (G r m [34] E) as (body & -> & Hb). exists body. split; [reflexivity|exact Hb].
+Qed.
+Lemma lex_string raw rest : str_ok raw = true -> Lex raw rest TString.
+Proof.
+  intro H. destruct (str_ok_shape raw H) as (body & -> & Hb). split; [reflexivity|split; [|reflexivity]].
+  change ((34 :: body ++ [34]) ++ rest) with (34 :: (body ++ [34]) ++ rest). rewrite <- app_assoc.
+  change (decide_next_token (34 :: body ++ [34] ++ rest))
+    with (match check_string (34 :: body ++ [34] ++ rest) with Some r => r | None => (TError, utf8_len 34) end).
+  unfold check_string.
+  rewrite (span_while_app (fun c => negb (c =? 34)) body ([34] ++ rest) Hb eq_refl). cbn [app].
+  cbn [bytes_len]. rewrite bytes_len_app. cbn [bytes_len]. f_equal.
+  change (utf8_len 34) with 1. lia.
+Qed.
+Lemma lex_dot rest : Lex [46] rest TDot.
+Proof. split; [reflexivity | split; reflexivity]. Qed.
+
 (* punctuation: fixed spellings *)
 Ltac lex_fixed := intros; split; [reflexivity | split; reflexivity].
 Lemma lex_popen rest : Lex [40] rest TParenOpen. Proof. lex_fixed. Qed.
@@ -301,7 +352,7 @@ Qed.
 
 (* `:` `-` `!` directly followed by the first character of an operand *)
 Lemma start_char_cases x : start_char x = true -> x <> 58 /\ x <> 62 /\ x <> 61.
-Proof. unfold start_char, is_digit, is_ident_start, is_lower, is_upper, in_range. lia. Qed.
+Proof. unfold start_char, lstart_char, is_digit, is_ident_start, is_lower, is_upper, in_range. lia. Qed.
 
 Lemma lex_colon x rest : x <> 58 -> Lex [58] (x :: rest) TColon.
 Proof.
@@ -321,22 +372,43 @@ Qed.
 
 (* the first token of an operand that does not begin with a unary operator: its kind, whatever follows *)
 Definition leaf_kind (k : tkind) : bool :=
-  match k with TNumber | TIdentifier | TKeywordAsm | TKeywordTrue | TKeywordFalse | TParenOpen | TBraceOpen => true | _ => false end.
+  match k with TNumber | TIdentifier | TKeywordAsm | TKeywordTrue | TKeywordFalse | TParenOpen | TBraceOpen
+             | TString | TError | TDot => true | _ => false end.
+
+Lemma kind_dot t : decide_next_token (46 :: t) = (TDot, 1).
+Proof. reflexivity. Qed.
+Lemma kind_quote t : leaf_kind (fst (decide_next_token (34 :: t))) = true.
+Proof.
+  change (decide_next_token (34 :: t)) with (match check_string (34 :: t) with Some r => r | None => (TError, utf8_len 34) end).
+  destruct (check_string (34 :: t)) as [[k n]|] eqn:E; [|reflexivity]. unfold check_string in E.
+  destruct (span_while (fun c => negb (c =? 34)) t) as [m rest]. destruct rest as [|y rest]; [discriminate|].
+  destruct y as [|q]; [discriminate|]. do 6 (destruct q as [q|q|]; try discriminate). inversion E. reflexivity.
+Qed.
+Lemma kind_dollar t : leaf_kind (fst (decide_next_token (36 :: t))) = true.
+Proof.
+  unfold decide_next_token. change (check_whitespace (36 :: t)) with (@None (tkind * N)).
+  change (check_comment (36 :: t)) with (@None (tkind * N)). cbn [orelse]. unfold check_number.
+  change (is_number_start 36) with false. change (36 =? 36) with true. cbv iota.
+  destruct (span_while is_hex_mid t) as [[|n] r]; reflexivity.
+Qed.
 
 Lemma lstart_kind x t : lstart_char x = true ->
   is_whitespace x = false /\ leaf_kind (fst (decide_next_token (x :: t))) = true.
 Proof.
   intros H. split; [unfold lstart_char, is_digit, is_ident_start, is_lower, is_upper, is_whitespace, in_range in *; lia|].
+  destruct (N.eq_dec x 34) as [-> | N34]; [apply kind_quote|].
+  destruct (N.eq_dec x 46) as [-> | N46]; [rewrite kind_dot; reflexivity|].
+  destruct (N.eq_dec x 36) as [-> | N36]; [apply kind_dollar|].
   unfold decide_next_token.
   rewrite check_ws_none by (unfold lstart_char, is_digit, is_ident_start, is_lower, is_upper, is_whitespace, in_range in *; lia).
   rewrite check_comment_none by (unfold lstart_char, is_digit, is_ident_start, is_lower, is_upper, in_range in *; lia).
   cbn [orelse]. unfold check_number, is_number_start.
   destruct (is_digit x) eqn:Hd.
   { destruct (span_while is_number_mid (x :: t)). reflexivity. }
-  replace (x =? 36) with false by (unfold lstart_char, is_digit, is_ident_start, is_lower, is_upper, in_range in *; lia).
+  replace (x =? 36) with false by lia.
   replace (x =? 37) with false by (unfold lstart_char, is_digit, is_ident_start, is_lower, is_upper, in_range in *; lia).
   cbn [orelse]. unfold check_identifier.
-  replace (x =? 36) with false by (unfold lstart_char, is_digit, is_ident_start, is_lower, is_upper, in_range in *; lia).
+  replace (x =? 36) with false by lia.
   destruct (is_ident_start x) eqn:Hi.
   { destruct (span_while is_ident_mid (x :: t)) as [n r0].
     destruct (text_eqb _ kw_asm); [reflexivity|]. destruct (text_eqb _ kw_true); [reflexivity|].
@@ -380,6 +452,7 @@ Qed.
 (* the first token of any operand is not a closing bracket *)
 Definition open_kind (k : tkind) : bool :=
   match k with TNumber | TIdentifier | TKeywordAsm | TKeywordTrue | TKeywordFalse | TParenOpen | TBraceOpen
+             | TString | TError | TDot
              | TMinus | TArrowRight | TExclamation | TExclamationEqual => true | _ => false end.
 Lemma start_kind x t : start_char x = true ->
   is_whitespace x = false /\ open_kind (fst (decide_next_token (x :: t))) = true.
@@ -388,7 +461,7 @@ Proof.
   destruct (lstart_char x) eqn:Hl.
   { destruct (lstart_kind x t Hl) as [H1 H2]. split; [exact H1|].
     destruct (fst (decide_next_token (x :: t))); try discriminate; reflexivity. }
-  assert (Hx : x = 45 \/ x = 33) by (unfold lstart_char in Hl; lia).
+  assert (Hx : x = 45 \/ x = 33) by (cbn [orb] in H; lia).
   destruct Hx as [-> | ->]; (split; [reflexivity|]); destruct t as [|y t]; try reflexivity;
     (destruct y as [|q]; [reflexivity|]); do 6 (destruct q as [q|q|]; try reflexivity).
 Qed.
@@ -399,4 +472,4 @@ Lemma leaf_kind_facts k : leaf_kind k = true ->
   is_ignorable k = false /\ tkind_eqb TExclamation k = false /\ tkind_eqb TMinus k = false.
 Proof. destruct k; cbn; intros; try discriminate; repeat split. Qed.
 Lemma lstart_start x : lstart_char x = true -> start_char x = true.
-Proof. unfold lstart_char, start_char. lia. Qed.
+Proof. intro H. unfold start_char. rewrite H. reflexivity. Qed.
